@@ -1,1 +1,314 @@
-pub fn placeholder() {}
+//! Running whole scripts on the simulated OS, in process.
+//!
+//! This is `yash_cli::run_as_shell_process` re-assembled from its public parts
+//! (`startup::args::parse`, `startup::configure_environment`,
+//! `startup::input::prepare_input`, `read_eval_loop`, `run_exit_trap`) on a
+//! `VirtualSystem`, plus *probe built-ins* that record what the shell did.
+//! The simulated OS has no external utilities, so `echo`, `cat`, `true` and
+//! `false` are provided as (mandatory) built-ins as well.
+
+use std::cell::{Cell, RefCell};
+use std::future::Future;
+use std::ops::ControlFlow::{Break, Continue};
+use std::panic::{AssertUnwindSafe, catch_unwind};
+use std::pin::Pin;
+use std::rc::Rc;
+use yash_cli::startup::args::{Parse, parse as parse_args};
+use yash_cli::startup::configure_environment;
+use yash_cli::startup::input::prepare_input;
+use yash_env::Env;
+use yash_env::builtin::{Builtin, Type};
+use yash_env::io::Fd;
+use yash_env::semantics::{Divert, ExitStatus, Field};
+use yash_env::system::concurrency::WriteAll as _;
+use yash_env::system::r#virtual::{FileBody, Inode, SystemState, VirtualSystem};
+use yash_env::system::{Concurrent, Read as _};
+use yash_semantics::read_eval_loop;
+use yash_semantics::trap::run_exit_trap;
+
+pub type Sys = Rc<Concurrent<VirtualSystem>>;
+pub type VEnv = Env<Sys>;
+pub type State = Rc<RefCell<SystemState>>;
+pub type BuiltinFuture<'a> = Pin<Box<dyn Future<Output = yash_env::builtin::Result> + 'a>>;
+
+/// One record made by a probe built-in.
+#[derive(Clone, Debug, PartialEq, Eq)]
+pub struct TraceItem {
+    /// name of the probe built-in (`probe`, `args`, ...)
+    pub kind: String,
+    /// `$?` when the built-in was entered
+    pub status: i32,
+    /// arguments (fields) the built-in received
+    pub args: Vec<String>,
+    /// true if recorded by the main shell process (not a subshell)
+    pub in_main: bool,
+}
+
+thread_local! {
+    static TRACE: RefCell<Vec<TraceItem>> = const { RefCell::new(Vec::new()) };
+}
+
+pub fn trace_push(item: TraceItem) {
+    TRACE.with(|t| t.borrow_mut().push(item));
+}
+pub fn trace_take() -> Vec<TraceItem> {
+    TRACE.with(|t| std::mem::take(&mut *t.borrow_mut()))
+}
+
+fn record(env: &VEnv, kind: &str, args: &[Field]) {
+    use yash_env::system::GetPid as _;
+    trace_push(TraceItem {
+        kind: kind.to_string(),
+        status: env.exit_status.0,
+        args: args.iter().map(|f| f.value.clone()).collect(),
+        in_main: env.system.getpid() == env.main_pid,
+    });
+}
+
+/// `probe KEY [STATUS]`: records `(KEY, $?)`, returns STATUS (default 0).
+fn probe_main(env: &mut VEnv, args: Vec<Field>) -> BuiltinFuture<'_> {
+    Box::pin(async move {
+        record(env, "probe", &args);
+        let st = args.get(1).and_then(|f| f.value.parse::<i32>().ok()).unwrap_or(0);
+        ExitStatus(st).into()
+    })
+}
+
+/// `args ...`: records its arguments verbatim, returns 0.
+fn args_main(env: &mut VEnv, args: Vec<Field>) -> BuiltinFuture<'_> {
+    Box::pin(async move {
+        record(env, "args", &args);
+        ExitStatus::SUCCESS.into()
+    })
+}
+
+fn echo_main(env: &mut VEnv, args: Vec<Field>) -> BuiltinFuture<'_> {
+    Box::pin(async move {
+        let v: Vec<&str> = args.iter().map(|f| f.value.as_str()).collect();
+        let message = format!("{}\n", v.join(" "));
+        match env.system.write_all(Fd::STDOUT, message.as_bytes()).await {
+            Ok(_) => ExitStatus::SUCCESS.into(),
+            Err(_) => ExitStatus::FAILURE.into(),
+        }
+    })
+}
+
+fn cat_main(env: &mut VEnv, _args: Vec<Field>) -> BuiltinFuture<'_> {
+    Box::pin(async move {
+        let mut buffer = [0; 1024];
+        loop {
+            match env.system.read(Fd::STDIN, &mut buffer).await {
+                Ok(0) => return ExitStatus::SUCCESS.into(),
+                Ok(n) => {
+                    if env.system.write_all(Fd::STDOUT, &buffer[..n]).await.is_err() {
+                        return ExitStatus::FAILURE.into();
+                    }
+                }
+                Err(_) => return ExitStatus::FAILURE.into(),
+            }
+        }
+    })
+}
+
+fn true_main(_env: &mut VEnv, _args: Vec<Field>) -> BuiltinFuture<'_> {
+    Box::pin(async move { ExitStatus::SUCCESS.into() })
+}
+fn false_main(_env: &mut VEnv, _args: Vec<Field>) -> BuiltinFuture<'_> {
+    Box::pin(async move { ExitStatus::FAILURE.into() })
+}
+
+/// Registers the probe built-ins and the stand-ins for external utilities.
+pub fn install_probes(env: &mut VEnv) {
+    env.builtins.insert("probe", Builtin::new(Type::Mandatory, probe_main));
+    env.builtins.insert("args", Builtin::new(Type::Mandatory, args_main));
+    env.builtins.insert("echo", Builtin::new(Type::Mandatory, echo_main));
+    env.builtins.insert("cat", Builtin::new(Type::Mandatory, cat_main));
+    env.builtins.insert("true", Builtin::new(Type::Mandatory, true_main));
+    env.builtins.insert("false", Builtin::new(Type::Mandatory, false_main));
+}
+
+/// What a run of the virtual shell produced.
+#[derive(Clone, Debug, Default)]
+pub struct Outcome {
+    pub stdout: String,
+    pub stderr: String,
+    /// final exit status of the shell
+    pub status: i32,
+    pub trace: Vec<TraceItem>,
+    /// message of a Rust panic, if one occurred
+    pub panicked: Option<String>,
+    /// the executor stalled with nothing to wake (a deadlock in the simulation)
+    pub deadlock: bool,
+    /// the step budget was exhausted (a hang)
+    pub timeout: bool,
+}
+
+/// Reads a regular file of the virtual file system.
+pub fn read_file(state: &State, path: &str) -> Option<Vec<u8>> {
+    let inode = state.borrow().file_system.get(path).ok()?;
+    let inode = inode.borrow();
+    match &inode.body {
+        FileBody::Regular { content, .. } => Some(content.clone()),
+        _ => None,
+    }
+}
+
+/// Creates (or replaces) a regular file of the virtual file system.
+pub fn write_file(state: &State, path: &str, content: &[u8]) {
+    state
+        .borrow_mut()
+        .file_system
+        .save(path, Rc::new(RefCell::new(Inode::new(content.to_vec()))))
+        .unwrap();
+}
+
+/// Drives a future on a fresh virtual system until it completes.
+///
+/// `task` receives the environment and the system state, like
+/// `yash_env::test_helper::in_virtual_system`, but a deadlock or an exhausted
+/// step budget is reported instead of asserted.
+pub fn drive<F, Fut, T>(task: F, max_rounds: usize) -> (Option<T>, bool, bool, State)
+where
+    F: FnOnce(VEnv, State) -> Fut,
+    Fut: Future<Output = T> + 'static,
+    T: 'static,
+{
+    let system = VirtualSystem::new();
+    let state = Rc::clone(&system.state);
+    let executor = yash_executor::Executor::new();
+    state.borrow_mut().executor = Some(Rc::new(executor.spawner()));
+    let env = Env::with_system(Rc::new(Concurrent::new(system)));
+    let concurrent = Rc::clone(&env.system);
+    let task = task(env, Rc::clone(&state));
+    let result = Rc::new(Cell::new(None));
+    let passer = Rc::clone(&result);
+    let runner = async move {
+        let inner = async move { passer.set(Some(task.await)) };
+        concurrent.run_virtual(inner).await
+    };
+    // SAFETY: single-threaded, as in yash_env::test_helper::in_virtual_system
+    unsafe { executor.spawn_pinned(Box::pin(runner)) };
+    let mut rounds = 0;
+    loop {
+        executor.run_until_stalled();
+        if let Some(r) = result.take() {
+            return (Some(r), false, false, state);
+        }
+        rounds += 1;
+        if rounds > max_rounds {
+            return (None, false, true, state);
+        }
+        let mut st = state.borrow_mut();
+        if let Some(t) = st.scheduled_wakers.next_wake_time() {
+            st.advance_time(t);
+        }
+        drop(st);
+        if executor.wake_count() == 0 {
+            return (None, true, false, state);
+        }
+    }
+}
+
+/// Options of [`run_shell`].
+#[derive(Clone, Debug, Default)]
+pub struct RunOpts {
+    /// command line, without `argv[0]`: e.g. `["-c", "echo x", "name", "arg1"]`
+    pub argv: Vec<String>,
+    /// content of the standard input file (regular file at /dev/stdin)
+    pub stdin: Option<Vec<u8>>,
+    /// files to create before the shell starts
+    pub files: Vec<(String, Vec<u8>)>,
+}
+
+/// Runs the shell like `yash_cli::main` does, on the simulated OS.
+///
+/// `setup` runs after the built-ins have been installed and before the first
+/// command is read.
+pub fn run_shell<F>(opts: RunOpts, setup: F) -> (Outcome, Option<State>)
+where
+    F: FnOnce(&mut VEnv, &State) + 'static,
+{
+    trace_take();
+    let r = catch_unwind(AssertUnwindSafe(move || {
+        let (res, deadlock, timeout, state) = drive(
+            move |mut env, state| {
+                for (p, c) in &opts.files {
+                    write_file(&state, p, c);
+                }
+                if let Some(input) = &opts.stdin {
+                    write_file(&state, "/dev/stdin", input);
+                }
+                async move {
+                    let mut argv = vec!["yash".to_string()];
+                    argv.extend(opts.argv.iter().cloned());
+                    let run = match parse_args(argv) {
+                        Ok(Parse::Run(run)) => run,
+                        _ => return 2,
+                    };
+                    let work = configure_environment(&mut env, run).await;
+                    install_probes(&mut env);
+                    setup(&mut env, &state);
+                    let ref_env = RefCell::new(&mut env);
+                    let lexer = match prepare_input(&ref_env, &work.source).await {
+                        Ok(lexer) => lexer,
+                        Err(_) => return 127,
+                    };
+                    let result = read_eval_loop(&ref_env, &mut { lexer }).await;
+                    let env = ref_env.into_inner();
+                    env.apply_result(result);
+                    match result {
+                        Continue(())
+                        | Break(Divert::Continue { .. })
+                        | Break(Divert::Break { .. })
+                        | Break(Divert::Return(_))
+                        | Break(Divert::Interrupt(_))
+                        | Break(Divert::Exit(_)) => run_exit_trap(env).await,
+                        Break(Divert::Abort(_)) => (),
+                    }
+                    env.exit_status.0
+                }
+            },
+            100_000,
+        );
+        (res, deadlock, timeout, state)
+    }));
+    let trace = trace_take();
+    match r {
+        Ok((res, deadlock, timeout, state)) => {
+            let get = |p: &str| {
+                read_file(&state, p).map(|b| String::from_utf8_lossy(&b).into_owned()).unwrap_or_default()
+            };
+            (
+                Outcome {
+                    stdout: get("/dev/stdout"),
+                    stderr: get("/dev/stderr"),
+                    status: res.unwrap_or(-1),
+                    trace,
+                    panicked: None,
+                    deadlock,
+                    timeout,
+                },
+                Some(state),
+            )
+        }
+        Err(e) => {
+            let msg = if let Some(s) = e.downcast_ref::<&str>() {
+                s.to_string()
+            } else if let Some(s) = e.downcast_ref::<String>() {
+                s.clone()
+            } else {
+                "panic".to_string()
+            };
+            (Outcome { trace, panicked: Some(msg), status: -2, ..Default::default() }, None)
+        }
+    }
+}
+
+/// `yash -c SCRIPT` on the simulated OS.
+pub fn run_script(script: &str) -> Outcome {
+    run_shell(
+        RunOpts { argv: vec!["-c".into(), script.into()], ..Default::default() },
+        |_, _| {},
+    )
+    .0
+}
